@@ -193,7 +193,7 @@ def run_units(unit_names, prop, tier, outdir, only_harness=None):
             cmd = base + ['-j', str(min(12, max(1, len(hs))))]
             for h in hs:
                 cmd += ['--harness', h['name'], '--exact'] if False else ['--harness', h['name']]
-            timeout = 1500 if tier == 'quick' else 5400
+            timeout = 900 if tier == 'quick' else 5400
             rc, out, dt = _sh(cmd, ws, env, timeout)
             result['cmds'].append(('RUSTFLAGS="%s" ' % CONFIGS[cfgname][0] if CONFIGS[cfgname][0] else '') + ' '.join(base) + ' --harness <each>')
             open(os.path.join(outdir, 'kani-%s.log' % cfgname), 'w').write(out)
